@@ -2,7 +2,7 @@
    [savable] contains only restrictions the data model of lopdf implies (each one is discussed in
    notes/C01.md); [known_deep] is the known-finding class C01-deep-nesting (mirrored by
    classify in props/c01.py); [reloaded] is the expected result of load (save d). *)
-From LV Require Import Base.Bytes Base.Sx Model.Obj Model.Writer Model.Parser Model.Save Model.Utf Gen.Lex
+From LV Require Import Base.Bytes Base.Sx Model.Obj Model.Writer Model.Parser Model.Xref Model.Save Model.Utf Gen.Lex
   Proofs.LexProofs Proofs.ObjectRtProofs Proofs.SaveProofs.
 
 Local Open Scope N_scope.
@@ -25,7 +25,9 @@ Fixpoint increasing (lo : N) (l : list N) : Prop :=
   | n :: l' => lo < n /\ increasing n l'
   end.
 
-Record savable (d : doc) : Prop := {
+(* the domain of the pipeline after its first statement (max_id already above every object number);
+   [savable] below is the property's domain *)
+Record savable_core (d : doc) : Prop := {
   sv_max_id : d_max_id d + 2 < u32_mod;                         (* no u32 overflow while saving *)
   sv_mark : binary_mark_ok (d_binary_mark d) = true;              (* otherwise save returns InvalidData *)
   sv_version_eol : no_eol (d_version d);
@@ -44,11 +46,28 @@ Definition known_deep (d : doc) : bool :=
   (MAX_DEPTH <? Nat.max 2 (nest (ODict (d_trailer d))))%nat.
 
 (* the file fits the 10-digit offsets / u32 arithmetic of the writer *)
+Definition small_file_core (xt : xref_type) (d : doc) : Prop := blen (so_bytes (save_core xt d)) < u32_mod.
 Definition small_file (xt : xref_type) (d : doc) : Prop := blen (so_bytes (save xt d)) < u32_mod.
 
 (* what comes back *)
 Definition norm_objects (m : objmap) : objmap := map (fun io => (fst io, norm_obj (snd io))) m.
 Definition last_number (m : objmap) : N := fold_left (fun a io => N.max a (fst (fst io))) m 0.
+
+(* THE DOMAIN OF THE PROPERTY.  max_id is NOT required to bound the object numbers: since the repair
+   'save raises max_id to the largest object number' save does that itself (before it, an object inserted into
+   `objects` under a number above max_id was left out of the cross-reference table, or overwritten by the
+   cross-reference stream whose number max_id + 1 collided with it). *)
+Record savable (d : doc) : Prop := {
+  sd_max_id : N.max (d_max_id d) (last_number (d_objects d)) + 2 < u32_mod;   (* no u32 overflow while saving *)
+  sd_mark : binary_mark_ok (d_binary_mark d) = true;
+  sd_version_eol : no_eol (d_version d);
+  sd_version_utf8 : utf8_decode (d_version d) <> None;
+  sd_numbers : increasing 0 (obj_numbers (d_objects d));
+  sd_objects : Forall (fun io => snd (fst io) <= u16_max /\ top_wf (snd io) /\ skipped (snd io) = false) (d_objects d);
+  sd_trailer : obj_wf (ODict (d_trailer d));
+  sd_no_prev : dict_has (d_trailer d) K_Prev = false;
+  sd_no_encrypt : dict_has (d_trailer d) K_Encrypt = false;
+}.
 
 Definition reloaded_table (d : doc) : doc :=
   {| d_version := d_version d; d_binary_mark := d_binary_mark d;
@@ -71,3 +90,38 @@ Definition reloaded_stream (d : doc) : doc :=
                     (norm_dict (fst (fst (xstream_of d)))) K_Length) Save.K_W) Save.K_Index;
      d_objects := norm_objects (d_objects d) ++ [((d_max_id d + 1, 0), xstream_obj d)];
      d_max_id := d_max_id d + 1 |}.
+
+(* ---------- the property's comparison ---------- *)
+(* trailer keys that are cross-reference bookkeeping (Filter is swap-removed by the stream format and would
+   otherwise describe the cross-reference stream) *)
+Definition bookkeeping : list bytes :=
+  [K_Type; Save.K_Size; Save.K_W; Save.K_Index; K_Length; Save.K_Prev; K_Filter].
+(* the cross-reference stream object: the loader keeps it in `objects` (it is listed in its own table); it is
+   cross-reference bookkeeping, not an object of the document, and the writer never writes it again *)
+Definition is_xref_stream (o : obj) : bool :=
+  match o with OStream d _ => has_type d K_XRef | _ => false end.
+Definition user_objects (m : objmap) : objmap := filter (fun io => negb (is_xref_stream (snd io))) m.
+Definition same_trailer (t t' : dict) : Prop :=
+  forall k, ~ In k bookkeeping -> dict_get t' k = dict_get (norm_dict t) k.
+(* d' is d after a save/load cycle: same version, the same identifiers with every object in normal form
+   (apart from cross-reference stream objects on either side), same trailer entries apart from bookkeeping *)
+Definition same_doc (d d' : doc) : Prop :=
+  d_version d' = d_version d /\
+  user_objects (d_objects d') = norm_objects (user_objects (d_objects d)) /\
+  same_trailer (d_trailer d) (d_trailer d').
+Definition xtype_of (xt : xref_type) : xtype := match xt with XTable => XTTable | XStream => XTStream end.
+
+(* what save works on: max_id raised, objects the writer drops (typed ObjStm / XRef / Linearized) left out *)
+Definition with_objects (d : doc) (m : objmap) : doc :=
+  {| d_version := d_version d; d_binary_mark := d_binary_mark d; d_trailer := d_trailer d;
+     d_objects := m; d_max_id := d_max_id d |}.
+Definition written (d : doc) : doc :=
+  with_objects (raise_max_id d) (filter (fun io => negb (skipped (snd io))) (d_objects d)).
+Definition reloaded (xt : xref_type) (d : doc) : doc :=
+  match xt with XTable => reloaded_table (written d) | XStream => reloaded_stream (written d) end.
+(* every cycle in the stream format uses one more object number (the cross-reference stream) *)
+Definition cycles_fit (xt : xref_type) (d : doc) : Prop :=
+  match xt with
+  | XTable => True
+  | XStream => N.max (d_max_id d) (last_number (d_objects d)) + 3 < u32_mod
+  end.
